@@ -10,6 +10,50 @@ import shutil
 import numpy as np
 from harness import common as C
 
+# ----------------------------------------------------------------------------- source tie (harness/translate.py)
+# Regenerated on every run into lean/TaurexModel/Gen/SrcC11.lean; lean/Props/C11Src.lean proves each definition equal to
+# the hand-written model of TaurexModel/Structure.lean.  dialect='arr': the array idioms of harness/translate_arr.py.
+_PLANET = 'taurex/data/planet.py'
+_PATTRS = {'self.fullMass': ('fullMass', 's'), 'self.fullRadius': ('fullRadius', 's')}
+SRC_SPECS = [
+    dict(module=_PLANET, cls='BasePlanet', func='gravity', callname='self.gravity', lean='gravity', property=True,
+         dialect='arr', params={}, attrs=_PATTRS, consts={'G': 's'}),
+    dict(module=_PLANET, cls='BasePlanet', func='gravity_at_height', callname='self.gravity_at_height',
+         lean='gravity_at_height', dialect='arr', params=dict(height='s'), attrs=_PATTRS, consts={'G': 's'}),
+    dict(module=_PLANET, cls='BasePlanet', func='calculate_scale_properties',
+         callname='self.planet.calculate_scale_properties', lean='calculate_scale_properties', dialect='arr',
+         params=dict(T='arr', Pl='arr', mu='arr', length_units='skip'), lens={'T': 'n'}, consts={'KBOLTZ': 's'},
+         s_externals={"conversion_factor('m', length_units)": 'unit'}, ret_kinds=['arr', 'arr', 'arr', 'arr']),
+    dict(module='taurex/data/profiles/pressure/pressureprofile.py', cls='SimplePressureProfile',
+         func='compute_pressure_profile', lean='compute_pressure_profile', dialect='arr', params={},
+         attrs={'self._atm_min_pressure': ('pmin', 's'), 'self._atm_max_pressure': ('pmax', 's'),
+                'self.nLevels': ('nLevels', 'nat'), 'self.pressure_profile_levels': ('levels', 'arr'),
+                'self.pressure_profile': ('layers', 'arr')},
+         state=['self.pressure_profile_levels', 'self.pressure_profile'],
+         arr_externals={'np.logspace': ('logspace', ['s', 's', 'nat'], 2)}),
+    dict(module='taurex/data/profiles/pressure/arraypressure.py', cls='ArrayPressureProfile',
+         func='compute_pressure_profile', lean='array_pressure_levels', dialect='arr', params={},
+         attrs={'self.pressure_profile': ('profile', 'arr'), 'self.pressure_profile_levels': ('levels', 'arr')},
+         lens={'self.pressure_profile': 'n'}, state=['self.pressure_profile_levels'],
+         arr_fn_externals={'np.gradient': 'gradient'}),
+    dict(module='taurex/model/simplemodel.py', cls='SimpleForwardModel',
+         func='_compute_altitude_gravity_scaleheight_profile', lean='compute_altitude_gravity_scaleheight_profile',
+         dialect='arr', params=dict(mu_profile='optarr'), lens={'self.temperatureProfile': 'n'},
+         attrs={'self._chemistry.muProfile': ('chem_mu', 'arr'),
+                'self.pressure.pressure_profile_levels': ('levels', 'arr'),
+                'self.temperatureProfile': ('temperatureProfile', 'arr'),
+                'self.altitude_profile': ('altitude_profile', 'arr'),
+                'self.scaleheight_profile': ('scaleheight_profile', 'arr'),
+                'self.gravity_profile': ('gravity_profile', 'arr'),
+                'self.altitude_boundaries': ('altitude_boundaries', 'arr'), 'self.deltaz': ('deltaz_out', 'arr')},
+         state=['self.altitude_profile', 'self.scaleheight_profile', 'self.gravity_profile',
+                'self.altitude_boundaries', 'self.deltaz']),
+    dict(module='taurex/model/simplemodel.py', cls='SimpleForwardModel', func='densityProfile', lean='densityProfile',
+         dialect='arr', params={}, returns='arr', consts={'KBOLTZ': 's'},
+         attrs={'self.pressureProfile': ('pressureProfile', 'arr'),
+                'self.temperatureProfile': ('temperatureProfile', 'arr')}),
+]
+
 RULE = ('planets 0.01-20 M_J, 0.1-3 R_J; 1-200 layers (quota for 1, 2, 3); pressure ranges pmin<pmax over 1e-6..1e8 Pa; '
         'temperature profiles isothermal / 2-point / Guillot / arbitrary positive array; mean molecular weight constant '
         'or varying with height (TwoLayerGas); pressure grids: SimplePressureProfile, ArrayPressureProfile (given or '
@@ -25,6 +69,9 @@ ASSUMPTIONS = [
     'the atmosphere stays finite in doubles (z_top below 1e3 planetary radii); runaway (unbound) cases go to the '
     'malformed stream',
     'rounding: model on Float vs numpy doubles compared to 1e-9 relative',
+    'source tie (Props/C11Src.lean): np.logspace(a, b, m) = 10**linspace(a, b, m), np.gradient = gradientAt on the n '
+    'entries (the two externals above), self.nLevels = nLayers + 1; the results of calculate_scale_properties carry the '
+    'factor conversion_factor("m", length_units) exactly as the code multiplies it in',
 ]
 
 REL = 1e-9
@@ -262,6 +309,27 @@ def eval_direct(ctx, c):
     ctx.check_close('calculate_scale_properties H vs Structure.scaleProps', H, mH, small, REL)
     ctx.check_close('calculate_scale_properties g vs Structure.scaleProps', g, mg, small, REL)
     ctx.check_close('calculate_scale_properties dz vs Structure.scaleProps', dz, mdz, small, REL)
+    # non-default length units (fixed quota: every third case): all four outputs are the metre values times ONE factor,
+    # so the hydrostatic relations hold in any unit
+    if (n + int(abs(float(T[0])) * 7)) % 3 == 0:
+        from taurex.util.util import conversion_factor
+        unit = ['km', 'cm', 'AU', 'Rjup'][(n + int(abs(float(pl[0])))) % 4]
+        try:
+            f = float(conversion_factor('m', unit))
+            with np.errstate(all='ignore'):
+                zu, Hu, gu, dzu = planet.calculate_scale_properties(T, pl, mu, length_units=unit)
+        except Exception as e:
+            ctx.violation('length-units-raises:' + unit, 'calculate_scale_properties(length_units=%r) raised %r' % (unit, e),
+                          small)
+            return
+        ctx.bucket('length_units:' + unit)
+        ok = (C.close(zu, z * f, 1e-12) and C.close(Hu, H * f, 1e-12) and C.close(gu, g * f, 1e-12)
+              and C.close(dzu, dz * f, 1e-12) and C.close(np.diff(zu), dzu, 1e-9, abs_=1e-9 * abs(float(zu[-1]))))
+        if not ok:
+            ctx.violation('length-units-inconsistent:' + unit,
+                          'calculate_scale_properties(length_units=%r): altitudes, scale heights, gravities and layer '
+                          'thicknesses are not all the metre values times the unit factor (dz != diff z in that unit)'
+                          % unit, small, dict(unit=unit, factor=f, z=zu[:3], dz=dzu[:3], z_m=z[:3], dz_m=dz[:3]))
 
 
 def gen_direct(rng, k):
